@@ -277,7 +277,7 @@ def c02(tier, seed, only):
     import itertools
 
     for name, md in h_solve.MODELS.items():
-        if only and name not in only:
+        if (only and name not in only) or (tier == "quick" and md.get("thorough_only")):
             continue
         n = len(md["props"])
         if n >= 2:
@@ -481,7 +481,7 @@ def c13(tier, seed, only):
     # lemma 1: Problem.init flattening, every posting order
     jobs = []
     for name, md in h_solve.MODELS.items():
-        if only and name not in only:
+        if (only and name not in only) or (tier == "quick" and md.get("thorough_only")):
             continue
         n = len(md["props"])
         orders = [None] if n < 2 else [list(o) for o in itertools.permutations(range(n))][: (6 if tier == "quick" else 24)]
@@ -521,7 +521,7 @@ def c13(tier, seed, only):
                 d.add(["C03", "C01"], [(name, {})], mode=mode, objective=obj)
     # permuting constraints
     for name, md in h_solve.MODELS.items():
-        if only and name not in only:
+        if (only and name not in only) or (tier == "quick" and md.get("thorough_only")):
             continue
         n = len(md["props"])
         if 2 <= n <= 3 and name not in twin_models:
@@ -663,7 +663,7 @@ def c15(tier, seed, only):
 
 @check("C20")
 def c20(tier, seed, only):
-    from nusym import h_models
+    from nusym import h_models, h_golomb  # noqa: every harness module is imported before the worker pool is forked
 
     chk = Check("C20", tier, seed, level="other")
     rep = h_models.run_all(tier, only)
@@ -685,8 +685,6 @@ def c20(tier, seed, only):
             r_ = chk.explore("model_latin_givens", dict(n=n_, base=b_), f"latin square/symbolic givens/n={n_}/colours from {b_}")
             chk.require("latin_givens", r_.acc.counts.get("constructor-path", 0) > 0, "constructor never returned")
     if not only or "golomb" in only:
-        from nusym import h_golomb  # noqa
-
         for n_ in (4, 5) if tier == "quick" else (4, 5, 6):
             r_ = chk.explore("golomb_step", dict(mark_nb=n_), f"golomb/pruning step from any state of the search invariant/marks={n_}", time_limit=900 if tier == "quick" else 5400)
             chk.require("golomb", any(k.startswith("pruned:") for k in r_.acc.counts), "the pruning step never completed")
